@@ -616,7 +616,7 @@ class TextTieStream(Stream):
             "non-trivial = hypotheses hold")
 
     def cases(self, tier, rng):
-        pool = [c for c in grid_cases(tier, rng, 1) if c["kind"] in "LN" and "frame" not in c["deco"]]
+        pool = [c for c in grid_cases(tier, rng, 1) if c["kind"] in "LN"]       # framed lines too (C02_tag_lines_general)
         n = 4000 if tier == "thorough" else 500
         for _ in range(n):
             kind = rng.choice("LN")
@@ -640,17 +640,20 @@ class TextTieStream(Stream):
         bs = self.parts(case)
         # the per-text hypotheses of C02_tag_lines, and the line-local ones of C02_tag_lines_general (the text ends with a line
         # feed: an empty last line)
+        new = "c02linesg\t%s\t%s\t%s\t%s\t%s\t%s\t%s" % (
+            case["kind"], "".join("R" if b["framed"] else "T" for b in bs) + "F", enc_list([b["pre"] for b in bs] + [""]),
+            enc_list([b["blanks"] for b in bs] + [""]), enc_list([b["v"] for b in bs] + [""]),
+            enc_list([b["trail"] for b in bs] + [""]), enc_list([b["ws"] for b in bs] + [""]))
+        if any(b["framed"] for b in bs):
+            return [new]              # C02_tag_lines has no framed lines
         return ["c02lines\t%s\t%s\t%s\t%s\t%s" % (case["kind"], enc_list(b["pre"] for b in bs), enc_list(b["blanks"] for b in bs),
-                                                    enc_list(b["v"] for b in bs), enc_list(b["trail"] for b in bs)),
-                "c02linesg\t%s\t%s\t%s\t%s\t%s\t%s" % (case["kind"], "T" * len(bs) + "F", enc_list([b["pre"] for b in bs] + [""]),
-                                                         enc_list([b["blanks"] for b in bs] + [""]), enc_list([b["v"] for b in bs] + [""]),
-                                                         enc_list([b["trail"] for b in bs] + [""]))]
+                                                    enc_list(b["v"] for b in bs), enc_list(b["trail"] for b in bs)), new]
 
     def model_out(self, case, outs):
         return "#".join(outs)
 
     def agree(self, case, impl_out, model_out):
-        old, new = model_out.split("#")
+        old, new = model_out.split("#") if "#" in model_out else ("0", model_out)
         hyp, text, values = new.split("|")
         if hyp == "1":
             bs = self.parts(case)
@@ -694,7 +697,7 @@ class InfoLinesStream(Stream):
             "theorem's text and promise must be the planted ones; non-trivial = hypotheses hold")
 
     def cases(self, tier, rng):
-        pool = [c for c in grid_cases(tier, rng, 1) if "frame" not in c["deco"] and (c["kind"] in "LN" or c["parts"]["p"] is not None)]
+        pool = [c for c in grid_cases(tier, rng, 1) if c["kind"] in "LN" or (c["parts"]["p"] is not None and "frame" not in c["deco"])]
         n = 6000 if tier == "thorough" else 700
         for _ in range(n):
             items = []
@@ -719,8 +722,13 @@ class InfoLinesStream(Stream):
             else:
                 b = case_build(it["grid"])
                 if b is not None:
-                    out.append((it["grid"]["kind"], b, it["grid"]))
+                    out.append((self.kind_of(it["grid"], b), b, it["grid"]))
         return out
+
+    @staticmethod
+    def kind_of(g, b):
+        """L / N / C, or M / P for a licence / contributor line inside an ASCII-art frame"""
+        return {"L": "M", "N": "P"}[g["kind"]] if b["framed"] else g["kind"]
 
     def text(self, case):
         return "\n".join(b["line"] for _, b, _ in self.parts(case))
@@ -728,11 +736,11 @@ class InfoLinesStream(Stream):
     def planted(self, case):
         lic, cpr, con = [], [], []
         for k, b, g in self.parts(case):
-            if k == "L":
+            if k in "LM":
                 lic.append(b["v"])
             elif k == "C":
                 cpr.append(g["value"])
-            elif k == "N":
+            elif k in "NP":
                 con.append(b["v"])
         return lic, cpr, con
 
@@ -755,6 +763,8 @@ class InfoLinesStream(Stream):
                 pres.append(b["line"]); blanks.append(""); vs.append(""); trails.append(""); keys.append(""); yforms.append("")
             elif k in "LN":
                 pres.append(b["pre"]); blanks.append(b["blanks"]); vs.append(b["v"]); trails.append(b["trail"]); keys.append(""); yforms.append("")
+            elif k in "MP":
+                pres.append(b["pre"]); blanks.append(b["blanks"]); vs.append(b["v"]); trails.append(b["trail"]); keys.append(enc(b["ws"])); yforms.append("")
             else:
                 y = g["parts"]["y"]
                 if y is None:
@@ -829,7 +839,7 @@ class BlockLinesStream(InfoLinesStream):
             "what the blocks hide; non-trivial = hypotheses hold")
 
     def cases(self, tier, rng):
-        pool = [c for c in grid_cases(tier, rng, 1) if "frame" not in c["deco"] and (c["kind"] in "LN" or c["parts"]["p"] is not None)]
+        pool = [c for c in grid_cases(tier, rng, 1) if c["kind"] in "LN" or (c["parts"]["p"] is not None and "frame" not in c["deco"])]
         n = 3000 if tier == "thorough" else 350
 
         def item():
@@ -885,7 +895,7 @@ class BlockLinesStream(InfoLinesStream):
                 b = case_build(e["grid"])
                 if b is None:
                     continue
-                part = (e["grid"]["kind"], b, e["grid"])
+                part = (self.kind_of(e["grid"], b), b, e["grid"])
             cur += sep + part[1]["line"]
             first = False
             vis.append(part)
